@@ -86,7 +86,8 @@ Proof. vm_compute. reflexivity. Qed.
    that this compiler + VM compute what the reference interpreter above defines.
    Vocabulary (L2/Simulation.v): [code_at C pc code]: [code] sits at index [pc] of the program [C];
    [star c C]: zero or more VM steps; [l2_expr] / [l2_stmt]: the covered fragment; [post] / [unwound] / [lc_fits]: where the VM is after a
-   statement that ended normally or with a loop control, and the scopes a loop control undoes.
+   statement that ended normally or with a loop control, and the scopes a loop control undoes;
+   [overflow]: the VM is about to count the 2^127-th kept item of a filtered loop.
    ============================================================================================ *)
 
 (* constant folding never changes a result, whatever the fuel (C04's fold_agrees needs fuel >= depth):
@@ -110,11 +111,12 @@ Theorem compile_expr_correct : forall c C fuel esc e, l2_expr e = true ->
 Proof. intros c C fuel esc e Hw s v s' He. exact (sim_all c C fuel esc e Hw s v s' He). Qed.
 
 (* Statements: raw text, emit, if / elif / else, set, set-block (with filter), with, filter block,
-   autoescape, for loops without filter (any target incl. unpacking, else branch, the loop variable
-   and loop.* through the loop frame), break and continue - nested in any way, over the expressions
-   above; compiled for ANY enclosing-loop context [lc] ([inl]: loop controls may occur, then [lc] must
-   be a loop; [lc_fits]: the scopes [lc] says are open really are).  If the interpreter runs the
-   statements from s to s' with signal sg, the VM runs from the first instruction of their code to:
+   autoescape, for loops (any target incl. unpacking, FILTER = the accumulate loop in front of the real
+   loop, else branch, the loop variable and loop.* through the loop frame, the recursive flag), break
+   and continue - nested in any way, over the expressions above; compiled for ANY enclosing-loop
+   context [lc] ([inl]: loop controls may occur, then [lc] must be a loop; [lc_fits]: the scopes [lc]
+   says are open really are).  If the interpreter runs the statements from s to s' with signal sg,
+   the VM runs from the first instruction of their code to ([post]):
      sg = normal   - the instruction after their code, same operand stack, state s', and the
                      auto-escape flag / stack, the capture stack and the loop iterators as they were
                      (frames pushed by `with` and loops, captures begun by set / filter blocks and
@@ -122,13 +124,19 @@ Proof. intros c C fuel esc e Hw s v s' He. exact (sim_all c C fuel esc e Hw s v 
      sg = break    - the end of the enclosing loop [lc_end], after undoing exactly the scopes opened
                      since that loop ([unwound]: PopFrame / EndCapture; DiscardTop / PopAutoEscape in
                      front of the jump - the clean-up whose absence was the C05 defect), state s';
-     sg = continue - likewise, at the loop's Iterate instruction [lc_iter]. *)
+     sg = continue - likewise, at the loop's Iterate instruction [lc_iter];
+   or ([overflow], the one way the VM can fall behind the interpreter) to the `Add` that counts the
+   kept items of a filtered loop with 2^127 - 1 items already kept: the VM counts them in a checked
+   i128, the interpreter has no such limit.  No sequence in memory is that long.
+   During the accumulate loop the two machines are NOT in equal states (the interpreter opens a scope
+   per item, the VM keeps one loop frame with hidden counters): the proof relates them and uses that
+   evaluation cannot see those counters (C03/L2Relab.v). *)
 Theorem compile_stmts_correct : forall c C fuel inl l, forallb (l2_stmt inl) l = true ->
   forall esc s sg s', exec_list c fuel esc s l = Ok (sg, s') ->
   forall base lc stk escs caps its calls, code_at C base (compile_stmts l base lc) ->
   (inl = true -> lc <> None) -> lc_fits lc (length (s_env s)) (length escs) (length caps) ->
   exists σ', star c C (mkVm base stk s esc escs caps its calls) σ' /\
-             post sg lc (base + length (compile_stmts l base lc)) stk s' esc escs caps its calls σ'.
+             (post sg lc (base + length (compile_stmts l base lc)) stk s' esc escs caps its calls σ' \/ overflow C σ').
 Proof. intros c C fuel inl l Hw. exact (proj2 (stmts_sim2 c C fuel) inl l Hw). Qed.
 
 Theorem compile_stmt_correct : forall c C fuel inl t, l2_stmt inl t = true ->
@@ -136,8 +144,13 @@ Theorem compile_stmt_correct : forall c C fuel inl t, l2_stmt inl t = true ->
   forall base lc stk escs caps its calls, code_at C base (compile_stmt t base lc) ->
   (inl = true -> lc <> None) -> lc_fits lc (length (s_env s)) (length escs) (length caps) ->
   exists σ', star c C (mkVm base stk s esc escs caps its calls) σ' /\
-             post sg lc (base + length (compile_stmt t base lc)) stk s' esc escs caps its calls σ'.
+             (post sg lc (base + length (compile_stmt t base lc)) stk s' esc escs caps its calls σ' \/ overflow C σ').
 Proof. intros c C fuel inl t Hw. exact (proj1 (stmts_sim2 c C fuel) inl t Hw). Qed.
+
+(* an [overflow] state is a failing run: InvalidOperation from the checked addition *)
+Theorem overflow_is_an_error : forall c C σo, star c C (init_vm c) σo -> overflow C σo ->
+  exists n, run_template c n C = Err E_InvalidOperation.
+Proof. exact overflow_run. Qed.
 
 (* the length of a statement's code does not depend on where its `break`s jump to - the fact behind
    computing a loop's end before its body's final code exists (codegen.rs patches the jumps afterwards) *)
@@ -148,18 +161,18 @@ Proof. exact compile_len_indep. Qed.
 (* Whole templates of that fragment (no loop control outside a loop): whenever the reference
    interpreter renders the template (final state s: output chunks, scopes, recorded context
    look-ups), eval_impl's loop on the compiled template terminates in exactly the same state - same
-   output in particular.
+   output in particular - or stops at the counter overflow described above.
    PARTIAL - not covered by the simulation proof, tied to the code by the correspondence of the
    check only (model stream = real stream; model VM = interpreter = engine on generated programs):
-     * for loops WITH a filter (the accumulate loop: the interpreter opens a scope per item, the VM one
-       loop frame for all items - equal only up to the hidden loop counters), recursive loops;
      * macros (declaration behind a jump, defaults, closures: Enclose / GetClosure / BuildMacro),
        calls of macros and functions (ECall, keyword arguments), call blocks and caller();
+     * `loop(...)` recursion (not expressible in the Lang syntax; the recursive FLAG is covered);
      * the failing direction: that an evaluation error of the interpreter is the same error of the VM
        (the theorems are forward simulations of successful runs). *)
 Theorem compile_correct_partial : forall c fuel body s,
   forallb (l2_stmt false) body = true -> Interp.run c fuel body = Ok s ->
-  exists n, run_template c n (compile_template body) = Ok s.
+  (exists n, run_template c n (compile_template body) = Ok s) \/
+  (exists σo, star c (compile_template body) (init_vm c) σo /\ overflow (compile_template body) σo).
 Proof. exact template_sim. Qed.
 
 (* non-vacuity: a program of the proved fragment (chained comparison with a variable, short-circuit
@@ -187,12 +200,17 @@ Example l2_witness :
                            SIf [(EAttr (EVar N_loop) A_last, [SBreak])] None] None;
               SEmit (EVar x); SEmit (EAttr (EVar N_loop) A_index)]]
           (Some [SRaw [69]]) false;
-     SFor (TPair y z) (EList []) None [SEmit (EVar y)] (Some [SRaw [69]]) false] in
+     SFor (TPair y z) (EList []) None [SEmit (EVar y)] (Some [SRaw [69]]) false;
+     (* {% for z in [1, 2, 3, 4] if z != 2 %}{{ z }}{{ loop.length }}{% if loop.index == 2 %}{% break %}{% endif %}{% endfor %} *)
+     SFor (TVar z) (EList [EConst (LInt 1); EConst (LInt 2); EConst (LInt 3); EConst (LInt 4)])
+          (Some (ECmp (EVar z) [(CNe, EConst (LInt 2))]))
+          [SEmit (EVar z); SEmit (EAttr (EVar N_loop) A_length);
+           SIf [(ECmp (EAttr (EVar N_loop) A_index) [(CEq, EConst (LInt 2))], [SBreak])] None] None true] in
   let cfg := mkCfg Lenient [] false in
   forallb (l2_stmt false) prog = true /\
   match Interp.run cfg 50 prog, run_template cfg 400 (compile_template prog) with
-  | Ok s, Ok s' => s = s' /\ output_of s = [50; 54; 65; 66; 38; 108; 116; 59; 84; 114; 117; 101; 55; 49; 57; 51; 69]
-                                          (* 2 6A B &lt; True 71 93 E *)
+  | Ok s, Ok s' => s = s' /\ output_of s = [50; 54; 65; 66; 38; 108; 116; 59; 84; 114; 117; 101; 55; 49; 57; 51; 69; 49; 51; 51; 51]
+                                          (* 2 6A B &lt; True 71 93 E 13 33 *)
   | _, _ => False
   end /\
   existsb (fun i => match i with ISwap => true | _ => false end) (compile_template prog) = true /\
@@ -231,5 +249,6 @@ Print Assumptions folded_constant_is_evaluation.
 Print Assumptions compile_expr_correct.
 Print Assumptions compile_stmts_correct.
 Print Assumptions compile_stmt_correct.
+Print Assumptions overflow_is_an_error.
 Print Assumptions code_length_independent_of_break_target.
 Print Assumptions compile_correct_partial.
